@@ -74,3 +74,14 @@ package sm4
 //@   requires c != nil && c.blocksSize == ite(useAVX2, 128, 64)
 //@   panics iff len(src) < c.blocksSize || len(dst) < c.blocksSize || (sameobj(dst, src) && offof(dst) != offof(src) && offof(dst) < offof(src) + c.blocksSize && offof(src) < offof(dst) + c.blocksSize)
 //@   modifies dst[0..ite(len(src) == 2 * c.blocksSize && len(dst) >= 2 * c.blocksSize, 2 * c.blocksSize, c.blocksSize)]
+
+// ---- key length (C02): exactly 16 bytes, any other length is an error and no cipher
+//@ func newCipher trusted
+//@   requires len(key) == 16
+//@   ensures err == nil && result0 != nil
+//@   modifies nothing
+//@ func NewCipher property C02
+//@   ensures len(key) != 16 <==> err != nil
+//@   ensures err == nil ==> result0 != nil
+//@   ensures err != nil ==> result0 == nil
+//@   modifies nothing
